@@ -4,4 +4,4 @@ go 1.15
 
 require github.com/EdgeCast/vflow v0.0.0
 
-replace github.com/EdgeCast/vflow => /root/wk/k5model/repo
+replace github.com/EdgeCast/vflow => /repo
